@@ -2592,6 +2592,7 @@ impl<'de> serde::de::Visitor<'de> for AnnotationsVisitor<'_> {
         A: serde::de::SeqAccess<'de>,
     {
         let pre_length = self.store.annotations_len();
+        let mut gaps: usize = 0; //total number of empty slots created on behalf of temporary ids
         loop {
             let annotationbuilder: Option<AnnotationBuilder> = seq.next_element()?;
             if let Some(mut annotationbuilder) = annotationbuilder {
@@ -2610,13 +2611,20 @@ impl<'de> serde::de::Visitor<'de> for AnnotationsVisitor<'_> {
                     // temporary public IDs are deserialized exactly
                     // as they were serialized. So if there were any gaps,
                     // we need to deserialize these too:
-                    if self.store.annotations_len() > handle + pre_length {
+                    if self.store.annotations_len() > handle.saturating_add(pre_length) {
                         return Err(serde::de::Error::custom(
                             "unable to resolve temporary public identifiers for annotations",
                         ));
                     } else if handle > self.store.annotations_len() {
                         // expand the gaps, though this wastes memory if ensures that all references
                         // are valid without explicitly storing public identifiers.
+                        gaps = gaps.saturating_add(handle - self.store.annotations_len());
+                        if gaps > MAX_TEMP_ID_GAP {
+                            return Err(serde::de::Error::custom(format!(
+                                "temporary public identifier !A{} for an annotation implies more than {} unused handles, refusing to allocate them",
+                                handle, MAX_TEMP_ID_GAP
+                            )));
+                        }
                         self.store.annotations.resize_with(handle, Default::default);
                     }
                 }
